@@ -337,7 +337,7 @@ class Builder:
         return {'t': 'data', 'd': w, 'vals': vals}
 
 
-def general_program(draw, cfg, max_steps=30):
+def general_program(draw, cfg, max_steps=30, extra=()):
     """A random program over a layout_isa() configuration -> (Builder, feature set)."""
     b = Builder(draw, cfg)
     d = draw
@@ -353,8 +353,65 @@ def general_program(draw, cfg, max_steps=30):
             break
         room = b.room()
         choice = d(st.sampled_from(['label', 'label', 'instr', 'instr', 'instr', 'probe', 'probe', 'fill', 'zerountil',
-                                    'org', 'align', 'memzone', 'orgzone', 'mute', 'excluded', 'const', 'local', 'flabel']))
-        if choice == 'label':
+                                    'org', 'align', 'memzone', 'orgzone', 'mute', 'excluded', 'const', 'local', 'flabel']
+                                   + list(extra)))
+        if choice == 'createzone':
+            free = [z for z in isagen.ZONES + ['ZX', 'ZY'] if z not in b.lay.zones]
+            g = b.lay.zones['GLOBAL']
+            zlo, zhi = max(g[0], b.lo), min(g[1], b.hi)
+            if free and zhi > zlo:
+                s0 = d(st.integers(zlo, zhi))
+                e0 = d(st.integers(s0, min(zhi, s0 + d(st.sampled_from([0, 1, 7, 31, 255])))))
+                nots = ['dec', 'hex$', 'hex0x']
+                b.add({'t': 'createzone', 'name': free[0], 'start': s0, 'end': e0,
+                       'start_text': exprs.render_num(s0, d(st.sampled_from(nots))),
+                       'end_text': exprs.render_num(e0, d(st.sampled_from(nots)))})
+                zones.append(free[0])
+                feats.add('createzone')
+        elif choice == 'zone-edge-fill' and not muted:
+            z = b.lay.zones[b.zone()]
+            left = z[1] - b.cursor() + 1
+            if 0 < left <= 300 and b.cursor() + left - 1 <= b.hi + 300:
+                past = d(st.integers(0, 3)) == 0
+                b.add({'t': 'fill', 'n': b.value(left + (1 if past else 0), consts), 'v': b.lit(d(st.integers(0, 255)))})
+                feats.add('fill-past-zone-end' if past else 'fill-to-zone-end')
+        elif choice == 'include' and not muted and len(b.stack) < 3 and b.nfiles < 3:
+            b.nfiles += 1
+            fname = f'inc{b.nfiles}.asm'
+            if b.zone() != 'GLOBAL':
+                feats.add('include-while-zone-selected')
+            if b.lay.cur['region'] is not None:
+                feats.add('include-while-region-open')
+            saved_local = local_defined
+            b.begin_include(fname)
+            local_defined = set()
+            for _ in range(d(st.integers(1, 5))):
+                if b.dead:
+                    break
+                k = d(st.sampled_from(['instr', 'probe', 'label', 'memzone', 'flabel', 'org']))
+                if k == 'instr' and b.room() >= 6:
+                    b.add(b.instr())
+                elif k == 'probe' and b.room() >= 24:
+                    b.add(b.probe())
+                elif k == 'label':
+                    undefined = [n for n in b.planned if not b.defined.get(n)]
+                    if undefined:
+                        n = d(st.sampled_from(undefined))
+                        b.add({'t': 'label', 'name': n})
+                        b.defined[n] = True
+                elif k == 'flabel':
+                    b.add({'t': 'label', 'name': d(st.sampled_from(FILE_LABELS))})
+                elif k == 'memzone' and zones:
+                    b.add({'t': 'memzone', 'zone': d(st.sampled_from(zones + ['GLOBAL']))})
+                    feats.add('zone')
+                elif k == 'org':
+                    spot = b.free_spot(d(st.integers(8, 32)))
+                    if spot is not None:
+                        b.add({'t': 'org', 'e': b.value(spot, consts)})
+            b.end_include()
+            local_defined = saved_local
+            feats.add('include')
+        elif choice == 'label':
             undefined = [n for n in b.planned if not b.defined.get(n)]
             if undefined:
                 n = d(st.sampled_from(undefined))
